@@ -50,9 +50,9 @@ PlainLists == {<<>>, <<[h |-> 1, w |-> 1]>>, <<[h |-> 1, w |-> 1], [h |-> 2, w |
 PlainLists3 == {l \in PlainLists : \A i \in 1..Len(l) : l[i].h \in G3}
 \* weighted group for rr/random/modhash: positive weights, zero and a large negative (what the weight
 \* builder must survive); Remove identifies by host, one weight is enough there
-WW == {0 - 200, 0, 1, 2}
-WLists == {<<>>, <<[h |-> 2, w |-> 1], [h |-> 1, w |-> 2]>>, <<[h |-> 1, w |-> 2], [h |-> 1, w |-> 1], [h |-> 3, w |-> 2]>>,
-           <<[h |-> 3, w |-> 0], [h |-> 1, w |-> 0]>>, <<[h |-> 1, w |-> 0 - 200], [h |-> 2, w |-> 2]>>}
+WW == {0 - 200, 0, 1, 3}
+WLists == {<<>>, <<[h |-> 2, w |-> 1], [h |-> 1, w |-> 3]>>, <<[h |-> 1, w |-> 3], [h |-> 1, w |-> 1], [h |-> 3, w |-> 3]>>,
+           <<[h |-> 3, w |-> 0], [h |-> 1, w |-> 0]>>, <<[h |-> 1, w |-> 0 - 200], [h |-> 2, w |-> 3]>>}
 \* weighted group for the consistent hash: weights whose ring sizes differ (w/4 rounds), zero and negative;
 \* Remove is called with the stored weight or another one
 CW == {0 - 1, 0, 4, 40}
